@@ -542,6 +542,67 @@ fn gen_prefix_defs(r: &mut Rng) -> (Vec<Def>, Vec<u8>) {
     (defs, alphabet)
 }
 
+/// Runs that CONTINUE: (1) a multi-unit incrementing range (or a run of consecutive bfchars with continuing multi-unit
+/// targets, or both), (2) redefinitions of codes INSIDE that run, (3) bfchars for the next codes whose targets are exactly
+/// the continuation of the run — in file order 1,2,3 and in every other order. Whatever an implementation does to "fold"
+/// such runs, the last definition covering a code must keep winning.
+fn gen_continuation_defs(r: &mut Rng) -> Vec<Def> {
+    let len = match r.below(6) { 0 => 1, 1 => 3, 2 => 4, _ => 2 };
+    let m = max_code(len);
+    let w = 1 + r.below(if len == 1 { 6 } else { 16 }) as u32;
+    let tail = 1 + r.below(3) as u32;
+    let base = gen_base(r, len);
+    let lo = base.min(m - (w + tail + 2)).max(1);
+    let hi = lo + w;
+    // the run's first target: a surrogate pair (astral plane), or 2-4 plain units; the last unit has room for the whole run
+    let room = (w + tail + 2) as u16;
+    let t0: Vec<u16> = match r.below(3) {
+        0 => (0..2 + r.usize(3)).map(|i| if i == 0 { 0x0066 } else { 0x0100 + r.below(0xD000) as u16 }).map(no_surrogate).collect(),
+        _ => vec![0xD800 + r.below(0x400) as u16, 0xDC00 + r.below(0x400 - room as u64) as u16],
+    };
+    let mut t0 = t0;
+    if *t0.last().unwrap() as u32 + room as u32 > 0xFFFF { *t0.last_mut().unwrap() = 0x4E00; }
+    let at = |code: u32| -> Vec<u16> { let mut t = t0.clone(); *t.last_mut().unwrap() += (code - lo) as u16; t };
+    // (1) the run
+    let mut run: Vec<Def> = vec![];
+    match r.below(3) {
+        0 => run.push(Def::Range { lo, hi, len, dsts: vec![t0.clone()] }),
+        1 => { for c in lo..=hi { run.push(Def::Char { code: c, len, dst: at(c) }); } }
+        _ => { let mid = lo + r.below(w as u64) as u32; run.push(Def::Range { lo, hi: mid, len, dsts: vec![t0.clone()] });
+               for c in mid + 1..=hi { run.push(Def::Char { code: c, len, dst: at(c) }); } }
+    }
+    // (2) redefinitions inside
+    let mut redefs: Vec<Def> = vec![];
+    for _ in 0..1 + r.usize(3) {
+        let c = lo + r.below(w as u64 + 1) as u32;
+        redefs.push(match r.below(4) {
+            0 => Def::Char { code: c, len, dst: gen_target(r, true) },
+            1 => { let c2 = (c + r.below(3) as u32).min(hi); Def::Range { lo: c, hi: c2, len, dsts: vec![vec![0x0061 + r.below(20) as u16]] } }
+            _ => Def::Char { code: c, len, dst: vec![0x0041 + r.below(26) as u16] },
+        });
+    }
+    // (3) the continuation (sometimes one that only looks like it: other prefix / off by one)
+    let mut cont: Vec<Def> = vec![];
+    for c in hi + 1..=hi + tail {
+        let mut t = at(c);
+        match r.below(8) { 0 => { t[0] ^= 1; } 1 => { *t.last_mut().unwrap() += 1; } _ => {} }
+        cont.push(Def::Char { code: c, len, dst: t });
+    }
+    let mut defs: Vec<Def> = vec![];
+    match r.below(4) {
+        0 | 1 => { defs.extend(run); defs.extend(redefs); defs.extend(cont); }           // the order 1, 2, 3
+        2 => { let mut groups = vec![run, redefs, cont]; r.shuffle(&mut groups); for g in groups { defs.extend(g); } }
+        _ => { defs.extend(run); defs.extend(redefs); defs.extend(cont); r.shuffle(&mut defs); }
+    }
+    // a little unrelated noise around it
+    for _ in 0..r.usize(3) {
+        let c = (lo + r.below((w + tail + 4) as u64) as u32).min(m);
+        let pos = r.usize(defs.len() + 1);
+        defs.insert(pos, Def::Char { code: c.saturating_sub(2), len, dst: vec![0x0030 + r.below(10) as u16] });
+    }
+    defs
+}
+
 /// split a definition list into sections (bfchar lines must be Char, bfrange lines Range); a Char may be rewritten as a 1-wide range
 fn sectionize(r: &mut Rng, defs: &[Def]) -> Vec<Sec> {
     let mut secs: Vec<Sec> = vec![];
@@ -566,6 +627,7 @@ fn gen_queries(r: &mut Rng, defs: &[Def]) -> Vec<(u32, u8)> {
         let (lo, hi, len) = (d.lo(), d.hi(), d.len());
         for c in [lo, hi, lo.wrapping_sub(1), hi.wrapping_add(1), lo.wrapping_add(1), hi.wrapping_sub(1)] { if c <= max_code(len) { q.push((c, len)); } }
         if hi > lo { for _ in 0..3 { q.push((lo + (r.next() as u32) % (hi - lo + 1), len)); } }
+        if hi - lo <= 20 { for c in lo..=hi { q.push((c, len)); } }                              // every code of a short range
         if r.chance(1, 4) { let l2 = 1 + (len % 4); q.push((lo & max_code(l2), l2)); }       // same (low) number, other length
     }
     for _ in 0..3 { let len = 1 + r.below(4) as u8; q.push(((r.next() as u32) & max_code(len), len)); }
@@ -909,7 +971,7 @@ fn run_inner(c: &mut Ctx) {
 overlapping/adjacent definitions in any order inside small windows of the code space incl. both ends) and random mapping tables rendered \
 with range merging/splitting; CMap text with random sectioning, white space, comments, hex case, metadata variants; lookups at every range \
 end +-1 and inside, other code lengths, unmapped codes; byte strings over mapped codes. Streams: single (single-unit targets only, strict), \
-isolated (non-single definitions touch nothing), wild and table (anything well-formed: equal adjacent targets, later definitions inside ranges …), sloppy (accepted but malformed targets: short/long arrays, ranges past FFFF; no-panic + correspondence), canonical (the writer of theorem cmap_parse_render), malformed (byte / hex-byte / blank-run \
+isolated (non-single definitions touch nothing), wild and table (anything well-formed: equal adjacent targets, later definitions inside ranges …), sloppy (accepted but malformed targets: short/long arrays, ranges past FFFF; no-panic + correspondence), continuation (multi-unit incrementing runs, redefinitions inside them and bfchars continuing them, in every order), canonical (the writer of theorem cmap_parse_render), malformed (byte / hex-byte / blank-run \
 edits) and grammar (24 lines at and beyond the edges of the grammar) — correspondence only. Non-trivial = every case; distinct by request text.".into();
     witnesses(c);
     for i in 0..c.n(2000, 40000) {
@@ -939,6 +1001,22 @@ edits) and grammar (24 lines at and beyond the edges of the grammar) — corresp
     for i in 0..c.n(1500, 25000) {
         let Some(mut r) = c.case("malformed", i) else { continue };
         malformed_case(c, &mut r);
+    }
+    // fixed: <0000> <000F> <D83DDE00>, then <0005> <0041>, then <0010> <D83DDE10> — <0005> must stay "A"
+    if let Some(mut r) = c.case("continuation-fixed", 0) {
+        let secs = vec![Sec::Ranges(vec![rg(0, 0xF, 2, &[&[0xD83D, 0xDE00]])]), Sec::Chars(vec![ch(5, 2, &[0x41])]), Sec::Chars(vec![ch(0x10, 2, &[0xD83D, 0xDE10])])];
+        check_case(c, &mut r, "continuation-fixed", &secs, Stats { strict: true, canonical: false }, true);
+    }
+    if let Some(mut r) = c.case("continuation-fixed", 1) {
+        let secs = vec![Sec::Chars(vec![ch(1, 1, &[0xD83D, 0xDE00]), ch(2, 1, &[0xD83D, 0xDE01]), ch(3, 1, &[0xD83D, 0xDE02]), ch(2, 1, &[0x42]), ch(4, 1, &[0xD83D, 0xDE03])])];
+        check_case(c, &mut r, "continuation-fixed", &secs, Stats { strict: true, canonical: false }, true);
+    }
+    // runs, interior redefinitions and continuing bfchars in every order: the last covering definition must keep winning
+    for i in 0..c.n(1500, 25000) {
+        let Some(mut r) = c.case("continuation", i) else { continue };
+        let defs = gen_continuation_defs(&mut r);
+        let secs = sectionize(&mut r, &defs);
+        check_case(c, &mut r, "continuation", &secs, Stats { strict: true, canonical: false }, true);
     }
     // prefix-related codes and unmapped bytes: the total segmentation spec (theorem cmap_decode_total_defines)
     for i in 0..c.n(1000, 20000) {
